@@ -677,7 +677,8 @@ PARSERS = re.compile(r"^(atoi|atol|atoll|strto(u?l|u?ll|imax|umax|d|f|ld)|atof)$
 def parser_text_complete(prog, chk, rid):
     """the text handed to the C library parser is the String's text (or the caller's), not a bounded copy that cuts long numerals"""
     chk.rule(rid, "VSA: where a String::to<Integer> conversion hands the C library parser a local character array instead of the text itself, "
-                  "the array holds the longest decimal text of the result type (sign, digits, NUL: 12 bytes for 32 bit, 21 for 64 bit)", floor=8)
+                  "the array holds the longest decimal text of the result type (sign, digits, NUL: 12 bytes for 32 bit, 21 for 64 bit); the raw "
+                  "`data->str` (unterminated for attached Strings) is never handed to a parser", floor=8)
     for f in sorted([f for f in prog.functions.values() if f.file.endswith("String.cpp") and re.match(r"^String::to(U?Int(64)?)$", f.name) and f.blocks], key=lambda g: g.sig):
         R = INT_T.get(f.d["ret"]) or INT_T.get(f.d.get("ret_canon", ""))
         need = None if R is None else (12 if R[1] <= 32 else 21)
@@ -708,6 +709,12 @@ def parser_text_complete(prog, chk, rid):
                 break
             nx = f.nodes[x] if x is not None else None
             m = re.search(r"\[(\d+)\]$", (nx["ref"].get("t") or "")) if nx is not None and nx["k"] == "DeclRefExpr" and nx["ref"].get("dk") == "local" else None
+            if nx is not None and nx["k"] == "MemberExpr" and nx.get("m") == "str" and nx["c"] and q.no_casts(f.r(nx["c"][0])) in ("this->data", "data"):
+                chk.bad(rid, f, "parser-reads-unterminated-text", f.where(c),
+                        "%s is handed `data->str` directly: a String attached to a window of a larger buffer has no terminator at length() (the "
+                        "C-string view `*this` makes one), so the parser runs on into the bytes behind the String - `123` attached inside "
+                        "`123456` converts to 123456" % f.nodes[c]["callee"], evals=2)
+                continue
             if m and need is not None and int(m.group(1)) < need:
                 chk.bad(rid, f, "parser-text-truncated:" + nx["ref"]["n"], f.where(c),
                         "%s parses the %d-byte local copy `%s`: the longest decimal text of `%s` needs %d bytes (sign, digits, NUL), so the "
